@@ -316,8 +316,8 @@ def post_nexus(run, snap, res, args, kwargs):
 
 def attach_all(run, rt):
     import cnvlib.export as E
-    traced = [("export.export_bed", E.export_bed), ("export.export_vcf", E.export_vcf), ("export.segments2vcf", E.segments2vcf), ("export.export_seg", E.export_seg),
-              ("export.merge_samples", E.merge_samples), ("export.fmt_cdt", E.fmt_cdt), ("export.fmt_jtv", E.fmt_jtv), ("export.export_nexus_basic", E.export_nexus_basic)]
+    traced = [("export.export_bed", rt.opt(E, "export_bed")), ("export.export_vcf", rt.opt(E, "export_vcf")), ("export.segments2vcf", rt.opt(E, "segments2vcf")), ("export.export_seg", rt.opt(E, "export_seg")),
+              ("export.merge_samples", rt.opt(E, "merge_samples")), ("export.fmt_cdt", rt.opt(E, "fmt_cdt")), ("export.fmt_jtv", rt.opt(E, "fmt_jtv")), ("export.export_nexus_basic", rt.opt(E, "export_nexus_basic"))]
     rt.attach(E, "export_bed", name="export.export_bed", pre=pre_bed, post=post_bed)
     rt.attach(E, "export_vcf", name="export.export_vcf", pre=pre_vcf, post=post_vcf)
     rt.attach(E, "export_seg", name="export.export_seg", pre=pre_seg, post=post_seg)
